@@ -39,7 +39,11 @@ class SourceShapeError(Exception):
 
 
 def bad(node, why):
-    raise SourceShapeError(f"draw_params.py:{getattr(node, 'lineno', '?')}: {why}: {ast.unparse(node)[:120]}")
+    try:
+        txt = ast.unparse(node)[:120]
+    except Exception:  # noqa - a node without source positions: name its kind
+        txt = type(node).__name__
+    raise SourceShapeError(f"draw_params.py:{getattr(node, 'lineno', '?')}: {why}: {txt}")
 
 
 def is_name(n, ident):
